@@ -8,17 +8,23 @@ from typing import Callable, Iterable
 from . import tree, treegen
 
 NSHARDS = 16
-CFGS = ["stock", "eager"]
+# virtual-time configurations carry most cases; a share runs on uvloop (timer-free variants,
+# cycle ticker, logical stuck rule -- DESIGN.md 2.2)
+CFGS = ["stock"] * 4 + ["eager"] * 4 + ["uvloop"] * 2
 
 
 def cases(profile: str, tier: str, seed: int, n_quick: int, n_thorough: int,
-          extra: Callable[[], Iterable[dict]] | None = None):  # noqa: ANN201
+          extra: Callable[[], Iterable[dict]] | None = None, uvloop: bool = True):  # noqa: ANN201
     if extra is not None:
-        yield from extra()
+        for i, case in enumerate(extra()):
+            yield case
+            if uvloop and i % 5 == 0 and case["cfg"] == "stock":
+                yield treegen.for_uvloop(case)
 
     rng = random.Random(seed * 7901 + hash(profile) % 1000)
+    cfgs = CFGS if uvloop else ["stock", "eager"]
     for _ in range(n_thorough if tier == "thorough" else n_quick):
-        yield treegen.gen(rng, profile, CFGS)
+        yield treegen.gen(rng, profile, cfgs)
 
 
 def judge(prop: str, case: dict, col, also: tuple[str, ...] = ()) -> None:  # noqa: ANN001
